@@ -1237,8 +1237,8 @@ def call_ext(interp, dotted: str, args: List[V], kwargs: Dict[str, V], node, cc)
         if nm == "outer" and len(args) == 2 and isinstance(args[0], Grid) and isinstance(args[1], Grid) and \
                 args[0].ndim == 1 and args[1].ndim == 1:
             a, b = args
-            f = lambda x, y: Num(x.p * y.p) if isinstance(x, Num) and isinstance(y, Num) else Term("mult", [x, y])
-            return Grid([a.dims[0], b.dims[0]], f(a.elem, b.elem))
+            el = binop(interp, ast.Mult(), a.elem, b.elem)
+            return Grid([a.dims[0], b.dims[0]], el if el is not None else Term("mult", [a.elem, b.elem]))
         return Term(nm, args, kwargs)
     if d in ("numpy.add.reduceat", "numpy.maximum.reduceat", "numpy.minimum.reduceat", "numpy.multiply.reduceat"):
         return Term("reduceat", [Const(d.split(".")[1])] + list(args), kwargs)
@@ -1530,6 +1530,9 @@ def _isinstance(interp, v, t):
 def call_method(interp, recv: V, name: str, args, kwargs, node, cc) -> Optional[V]:
     if isinstance(recv, ListV):
         return list_method(interp, recv, name, args, kwargs, node)
+    if name in ("argmin", "argmax", "argsort") and isinstance(recv, (Grid, Term)) and not (isinstance(recv, Term) and recv.op == "sparse"):
+        # method form == function form
+        return Term(name, [recv], {"axis": Const(_axis(kwargs, args, 0))})
     if isinstance(recv, ObjV) and recv.ext == "sparse":
         return sparse_method(interp, recv, name, args, kwargs, node)
     if isinstance(recv, ObjV) and recv.ext == "ndarray":
